@@ -152,9 +152,22 @@ class BaseAbort(BaseException):
     """Leaves a with-block by an exception that is not an Exception subclass."""
 
 
+class FalsyAbort(Exception):
+    """An exception instance whose truth value is False (e.g. an empty error collection)."""
+
+    def __bool__(self):
+        return False
+
+    def __len__(self):
+        return 0
+
+
 def abort_exception(n):
-    """The exception used to leave a block: Exception / bare BaseException / KeyboardInterrupt."""
-    return [Abort("injected"), BaseAbort("injected"), KeyboardInterrupt("injected")][n % 3]
+    """
+    The exception used to leave a block: an Exception, a bare BaseException,
+    KeyboardInterrupt, or an Exception instance that is falsy.
+    """
+    return [Abort("injected"), BaseAbort("injected"), KeyboardInterrupt("injected"), FalsyAbort("injected")][n % 4]
 
 
 def cm_enter(check, cm):
@@ -209,3 +222,25 @@ def as_nibbles(check, x, what):
     if any(not 0 <= i <= 15 for i in out):
         raise Violation(check, f"{what}: {out} is not a nibble sequence")
     return out
+
+
+def call_with_headroom(headroom, fn):
+    """
+    Call fn() from deep down the call stack, leaving only `headroom` Python frames below the
+    interpreter's recursion limit - what a caller sitting deep inside its own recursion sees.
+    Operations that are iterative by design need a small constant number of frames.
+    """
+    import sys
+
+    depth, f = 0, sys._getframe()
+    while f is not None:
+        depth += 1
+        f = f.f_back
+    need = sys.getrecursionlimit() - depth - headroom
+
+    def go(n):
+        if n <= 0:
+            return fn()
+        return go(n - 1)
+
+    return go(need)
